@@ -13,4 +13,27 @@ case "$what" in
     cp "$VERIF_ROOT/harness/go.sum.base" "$VERIF_BUILD/seq.sum"
     (cd "$VERIF_ROOT/harness" && $GO build -modfile="$mf" -o "$VERIF_BUILD/seq" ./cmd/seq)
     ;;
+  mcgen)
+    (cd "$VERIF_ROOT/mcgen" && $GO build -o "$VERIF_BUILD/mcgen" .)
+    ;;
+  mcx)
+    # scratch copy of the working tree, rewritten onto the controlled runtime
+    [ -x "$VERIF_BUILD/mcgen" ] && [ "$VERIF_BUILD/mcgen" -nt "$VERIF_ROOT/mcgen/main.go" ] || "$0" mcgen
+    work="${VERIF_SCRATCH:-$VERIF_SCRATCH_BASE/verif-mcx-$$}/mcrepo"
+    rm -rf "$work"; mkdir -p "$work/markdown" "$work/verifmc"
+    cp "$VERIF_REPO/go.mod" "$VERIF_REPO/go.sum" "$work/"
+    for f in "$VERIF_REPO"/*.go; do case "$f" in *_test.go) ;; *) cp "$f" "$work/";; esac; done
+    for f in "$VERIF_REPO"/markdown/*.go; do case "$f" in *_test.go) ;; *) cp "$f" "$work/markdown/";; esac; done
+    cp -r "$VERIF_ROOT/mc/." "$work/verifmc/"
+    echo 'package mc
+func init() { Sites = nil }' > "$work/verifmc/sites.go"
+    (cd "$work" && "$VERIF_BUILD/mcgen" "$work" ${VERIF_MEM:-mem}) >&2
+    mf="$VERIF_BUILD/mcx-$$.mod"
+    sed "s#@REPO@#$work#" "$VERIF_ROOT/harness/go.mod.tmpl" > "$mf"
+    cp "$VERIF_ROOT/harness/go.sum.base" "${mf%.mod}.sum"
+    (cd "$VERIF_ROOT/harness" && $GO build -modfile="$mf" -tags mcbuild -o "$VERIF_BUILD/mcx" ./cmd/mcx); rc=$?
+    rm -f "$mf" "${mf%.mod}.sum"
+    [ -n "${VERIF_KEEP_MCREPO:-}" ] || rm -rf "$work"
+    exit $rc
+    ;;
 esac
